@@ -1,6 +1,6 @@
 (* Wire entry points of the C11 model (Romberg extrapolation grids). *)
 From Coq Require Import ZArith List Bool QArith Qcanon.
-From SG Require Import Base.Sx Base.QcUtil Model.Romberg.
+From SG Require Import Base.Sx Base.QcUtil Model.Romberg Model.RombergContainers.
 Import ListNotations.
 Open Scope Z_scope.
 
@@ -25,7 +25,16 @@ Definition opt_sx (o : option sx) : sx := match o with Some s => s | None => sx_
    sub 1: (grid levels) -> (balanced_weights keys_in_grid_checker) | err 1
    sub 2: (grid levels) -> ((grid levels) (full_grid full_levels)) | err 1      GridBinaryTree
    sub 3: (a b version m) -> (boundary (inner_1..inner_m) (c_m0..c_mm))          RombergWeightFactory
-   sub 4: (grid levels) -> support sequences of all slices (no asserts) *)
+   sub 4: (grid levels) -> support sequences of all slices (no asserts)
+   sub 5: (grouping slice_version container_version force grid levels) -> (grid levels container_sizes weights dict_keys containers) | err 1
+          the pipeline on container OBJECTS (Model/RombergContainers.v); one entry per container:
+          (left_point right_point max_level minimal_step_width ((l r) ... of its slices)), attributes as (v) or () = None *)
+Definition of_optQc (o : option Qc) : sx := match o with Some x => Lv [of_Qc x] | None => Lv [] end.
+Definition of_optnat (o : option nat) : sx := match o with Some n => Lv [Zv (Z.of_nat n)] | None => Lv [] end.
+Definition of_cont (c : cont) : sx :=
+  Lv [of_optQc (c_left c); of_optQc (c_right c); of_optnat (c_max_level c); of_optQc (c_min_step c);
+      Lv (map (fun s => Lv [of_Qc (sl_l s); of_Qc (sl_r s)]) (c_slices c))].
+
 Definition entry_C11 (sub : Z) (a : sx) : sx :=
   match sub, a with
   | 0, Lv [Zv g; Zv sv; Zv cv; f; grid; levels] =>
@@ -80,6 +89,16 @@ Definition entry_C11 (sub : Z) (a : sx) : sx :=
     | Some grid, Some levels =>
       Lv (map (fun i => of_pairs (support_sequence grid levels i)) (seq 0 (length grid - 1)))
     | _, _ => sx_err 2
+    end
+  | 5, Lv [Zv g; Zv sv; Zv cv; f; grid; levels] =>
+    match dec_grouping g, dec_slice_version sv, dec_container_version cv, get_bool f, get_LQc grid, get_Lnat levels with
+    | Some g, Some sv, Some cv, Some f, Some grid, Some levels =>
+      match extrapolation_grid_obj g sv cv f grid levels with
+      | Some (r, cs) => Lv [of_LQc (er_grid r); of_Lnat (er_levels r); of_Lnat (er_container_sizes r); of_LQc (er_weights r);
+                            of_LQc (map fst (er_dict r)); Lv (map of_cont cs)]
+      | None => sx_err 1
+      end
+    | _, _, _, _, _, _ => sx_err 2
     end
   | _, _ => sx_err 0
   end.
